@@ -624,20 +624,29 @@ func runChain(w *world.World, bin string, env []string, tmp string, leaves []cmd
 	if err := node.Start(); err != nil {
 		return nil, 0, nil, err
 	}
+	exited := make(chan struct{})
+	go func() { node.Wait(); close(exited) }()
 	defer func() {
 		node.Process.Signal(os.Interrupt)
-		done := make(chan struct{})
-		go func() { node.Wait(); close(done) }()
 		select {
-		case <-done:
+		case <-exited:
 		case <-time.After(10 * time.Second):
 			node.Process.Kill()
 		}
 	}()
 	nodeURL := fmt.Sprintf("tcp://127.0.0.1:%d", rpc)
 	height := 0
-	deadline := time.Now().Add(90 * time.Second)
+	deadline := time.Now().Add(240 * time.Second)
+	nodeDied := false
 	for time.Now().Before(deadline) {
+		select {
+		case <-exited:
+			nodeDied = true
+		default:
+		}
+		if nodeDied {
+			break
+		}
 		so, _, code := runCmd(10*time.Second, env, bin, "status", "--node", nodeURL, "--home="+home)
 		if code == 0 {
 			var s struct {
@@ -652,9 +661,6 @@ func runChain(w *world.World, bin string, env []string, tmp string, leaves []cmd
 				}
 			}
 		}
-		if node.ProcessState != nil {
-			break
-		}
 		time.Sleep(500 * time.Millisecond)
 	}
 	n++
@@ -663,7 +669,13 @@ func runChain(w *world.World, bin string, env []string, tmp string, leaves []cmd
 		if len(tail) > 1500 {
 			tail = tail[len(tail)-1500:]
 		}
-		bad("chain/no-blocks", "the one-node chain reached height %d within 90 s; node log tail: %s", height, tail)
+		if nodeDied {
+			// the node process terminated by itself: that is a failure to start / run, whatever the speed of the machine
+			bad("chain/node-exited", "the one-node chain process exited at height %d; log tail: %s", height, tail)
+		} else {
+			// still running but slow: no wall-clock oracle — reported as inconclusive, never as a violation
+			samples = append(samples, map[string]any{"one_node_chain": fmt.Sprintf("inconclusive: height %d after 240 s, node still running", height)})
+		}
 		return vs, n, samples, nil
 	}
 	// every query leaf answers with the exported objects
